@@ -516,6 +516,15 @@ bool Sandbox::make_hardlink(const std::string& rel, const std::string& target_re
 		split_rel(rel, top, sub);
 		std::string dn = disk_name_of_top(cfg, top);
 		if (!dn.empty() && get_file(rel, b)) versions.put(dn, sub, b, st.st_mtim.tv_sec, st.st_mtim.tv_nsec);
+		// another name of the same inode: every content the harness has seen under the old name with this size and stamp
+		// (silent damage keeps both) is a possible content under the new one - the scan may take the new name for a move
+		std::string ttop, tsub;
+		split_rel(target_rel, ttop, tsub);
+		std::string tdn = disk_name_of_top(cfg, ttop);
+		if (!dn.empty() && !tdn.empty()) {
+			const auto* v = versions.all(tdn, tsub, (uint64_t)st.st_size, st.st_mtim.tv_sec, st.st_mtim.tv_nsec);
+			if (v) { auto copy = *v; for (auto& e : copy) versions.put(dn, sub, *e, st.st_mtim.tv_sec, st.st_mtim.tv_nsec); }
+		}
 	}
 	return true;
 }
